@@ -74,7 +74,7 @@ def case(ctx):
     import shapepy
 
     rng = ctx.rng
-    kind = rng.choice("SSSSUUCCCDDNVVEW")
+    kind = rng.choice("SSSSUUCCCDDNMVVEW")
     curved = rng.random() < 0.45
     num = None if curved else rng.choice(["int", "frac", "float"])
     size = rng.choice([1.0, 10.0, 10.0, 100.0])
